@@ -25,6 +25,7 @@ P(e, k) == e.post[k]
 SC(e, k) == LET x == e.sc[k] IN [s |-> IF x.m = <<>> THEN 0 ELSE IF x.neg THEN -1 ELSE 1, d |-> x.m]
 SCV(x) == [s |-> IF x.m = <<>> THEN 0 ELSE IF x.neg THEN -1 ELSE 1, d |-> x.m]
 IsUTy(e) == e.ty = "U"
+RootN(e) == IF Has(e, "sc") THEN e.sc[1].m ELSE OfInt(e.n)
 \* operand k of a binary operation: a source register or a scalar, as selected by e.args
 A(e, k) == IF ~Has(e, "args") THEN S(e, k)
            ELSE LET c == e.args[k] IN IF "r" \in DOMAIN c THEN S(e, c.r) ELSE SC(e, c.c)
@@ -43,6 +44,9 @@ DivOps == {"div", "rem", "div_rem", "checked_div", "div_floor", "mod_floor", "di
 Fails(e) ==
     CASE e.op \in {"sub", "checked_sub"} /\ IsUTy(e) -> FailsSubU(A(e, 1), A(e, 2))
       [] e.op \in DivOps -> FailsDiv(A(e, 2))
+      [] e.op \in {"sqrt", "cbrt", "nth_root"} -> FailsRoot(S(e, 1), RootN(e))
+      [] e.op \in {"next_multiple_of", "prev_multiple_of"} -> S(e, 2).s = 0
+      [] e.op = "dec" /\ IsUTy(e) -> S(e, 1).s = 0
       [] e.op = "modpow" -> FailsModPow(S(e, 2), S(e, 3))
       [] e.op = "modinv" -> S(e, 2).s = 0
       [] e.op \in {"shl", "shr"} -> e.sc[1].neg /\ e.sc[1].m # <<>>
@@ -99,6 +103,39 @@ Rule(e) ==
             IF ~d.finite THEN ~e.ret.some
             ELSE IF e.ty = "U" /\ d.neg /\ d.mag # <<>> THEN ~e.ret.some
             ELSE e.ret.some /\ PostIs1(e, Z(IF d.neg THEN -1 ELSE 1, d.mag))
+      [] e.op \in {"sqrt", "cbrt", "nth_root"} -> RootR(S(e, 1), RootN(e), PA(e, 1))
+      [] e.op = "pow" -> PowBigDefined(S(e, 1), SC(e, 1)) /\ PostIs1(e, PowBigR(S(e, 1), SC(e, 1)))
+      [] e.op = "pow_big" -> PowBigDefined(S(e, 1), S(e, 2)) /\ PostIs1(e, PowBigR(S(e, 1), S(e, 2)))
+      [] e.op = "gcd" -> GcdCert(S(e, 1), S(e, 2), e.hg) /\ PostIs1(e, e.hg.g)
+      [] e.op = "lcm" -> GcdCert(S(e, 1), S(e, 2), e.hg) /\ IsLcm(S(e, 1), S(e, 2), e.hg.g, PA(e, 1))
+      [] e.op = "gcd_lcm" -> /\ GcdCert(S(e, 1), S(e, 2), e.hg) /\ ZEq(PA(e, 1), e.hg.g)
+                             /\ IsLcm(S(e, 1), S(e, 2), e.hg.g, PA(e, 2))
+      [] e.op \in {"extended_gcd", "extended_gcd_lcm"} ->
+            /\ GcdCert(S(e, 1), S(e, 2), e.hg) /\ ZEq(PA(e, 1), e.hg.g)
+            /\ ZEq(ZAdd(ZMul(S(e, 1), PA(e, 2)), ZMul(S(e, 2), PA(e, 3))), PA(e, 1))
+            /\ (e.op = "extended_gcd_lcm" => IsLcm(S(e, 1), S(e, 2), e.hg.g, PA(e, 4)))
+      [] e.op = "next_multiple_of" -> IsNextMultiple(S(e, 1), S(e, 2), PA(e, 1), Adopt(e.ret.hk))
+      [] e.op = "prev_multiple_of" -> IsPrevMultiple(S(e, 1), S(e, 2), PA(e, 1), Adopt(e.ret.hk))
+      [] e.op = "is_even" -> e.ret.b = (Bit(S(e, 1).d, 0) = 0)
+      [] e.op = "is_odd"  -> e.ret.b = (Bit(S(e, 1).d, 0) = 1)
+      [] e.op = "inc" -> PostIs1(e, ZAddInt(S(e, 1), 1))
+      [] e.op = "dec" -> PostIs1(e, ZAddInt(S(e, 1), -1))
+      [] e.op = "neg" -> PostIs1(e, ZNeg(S(e, 1)))
+      [] e.op = "abs" -> PostIs1(e, ZAbs(S(e, 1)))
+      [] e.op = "signum" -> PostIs1(e, ZInt(S(e, 1).s))
+      [] e.op = "is_positive" -> e.ret.b = (S(e, 1).s > 0)
+      [] e.op = "is_negative" -> e.ret.b = (S(e, 1).s < 0)
+      [] e.op = "sign" -> e.ret.n = S(e, 1).s
+      [] e.op = "magnitude" -> PostIs1(e, ZAbs(S(e, 1)))
+      [] e.op = "into_parts" -> e.ret.n = S(e, 1).s /\ PostIs1(e, ZAbs(S(e, 1)))
+      [] e.op = "abs_sub" -> PostIs1(e, AbsSubR(S(e, 1), S(e, 2)))
+      [] e.op = "is_zero" -> e.ret.b = (S(e, 1).s = 0)
+      [] e.op = "is_one" -> e.ret.b = ZEq(S(e, 1), ZOne)
+      [] e.op = "set_zero" -> PostIs1(e, ZZero)
+      [] e.op = "set_one" -> PostIs1(e, ZOne)
+      [] e.op = "const" -> PostIs1(e, ZInt(e.n))
+      [] e.op = "sign_neg" -> e.ret.n = -e.a
+      [] e.op = "sign_mul" -> e.ret.n = e.a * e.b
       [] e.op = "to_str_radix" -> IsTextOf(e.ret.text, S(e, 1), e.radix, FALSE)
       [] e.op = "fmt" -> e.ret.text = FormatR(S(e, 1), e.spec)
       [] e.op = "to_radix_le" -> IsDigitsOf(Reverse(e.ret.bytes), S(e, 1).d, e.radix) /\ (e.ty = "I" => e.ret.n = S(e, 1).s)
